@@ -105,7 +105,7 @@ def draw(desc: dict, mode: str, modes: list[str], n: int, seed: int) -> dict:
     seen = set()
     for case in drawn:
         try:
-            c = project_case(case, op_decl, method)
+            c = project_case(case, op_decl, method, given=kwargs)
         except Exception as exc:
             out["error"] = "project:%s:%s" % (type(exc).__name__, str(exc)[:120])
             continue
